@@ -98,7 +98,8 @@ PROPS["C06"] = {
             "plus generated histories; restarts <= budget, exactly one ActorMaxRestartsExceededEvent, actor and children stopped (children first) "
             "and unregistered, later sends dead-letter exactly once with target/message/sender, the id can be respawned, a bystander still answers, "
             "the test process survives (a dead process is a violation; the journaled case is the replay).  Non-trivial = the budget was exhausted.  "
-            "Round 3 additions: panics with *actor.InternalError (restart that neither counts nor is published); for an actor that exhausts its budget inside Spawn the registry is judged when Spawn returns (all synchronous).",
+            "Round 3 additions: panics with *actor.InternalError (restart that neither counts nor is published); for an actor that exhausts its budget inside Spawn the registry is judged when Spawn returns (all synchronous).  "
+            "Round 4 additions: Started handlers that spawn their fixed-id children again after every restart (refused as duplicates): the live children must still be stopped and unregistered with the actor.",
     "technique": "complete fault enumeration over (budget, crash placement, queue content, children) + model-based property testing (rapid)",
     "level_text": "The small fault space is enumerated completely (400 cases); generated histories extend it. Outcome compared with an exact model.",
     "level_note": "trusts internal/life/sim.go; a panic inside a Stopped handler is not generated",
@@ -140,7 +141,8 @@ PROPS["C13"] = {
             "stop, poison, max-restarts); every receiver delivery must be bracketed by M0.in .. Mk-1.in and Mk-1.out .. M0.out (out or unwound by the panic), "
             "each exactly once, all layers seeing the same message and sender as the receiver, user messages with the sender given at the send.  "
             "Non-trivial = chain length >= 2 and the history contains a crash.  "
-            "Round 3 additions: the chain handed over in two WithMiddleware options at a generated split; the first option value is reused for a bystander actor with a middleware of its own, which must never see a delivery of the target; spawn contexts (none / live / cancelled); panics with *actor.InternalError (restart outside the budget).",
+            "Round 3 additions: the chain handed over in two WithMiddleware options at a generated split; the first option value is reused for a bystander actor with a middleware of its own, which must never see a delivery of the target; spawn contexts (none / live / cancelled); panics with *actor.InternalError (restart outside the budget).  "
+            "Round 4 additions: every middleware reads message and sender from the Context again on its way out; receivers that answer messages with Context.Respond.",
     "technique": "property-based testing (rapid) of generated histories with logging middleware; bracket-structure oracle over the totally ordered log",
     "level_text": "Generated-history search; the oracle is a structural invariant over the delivery log.",
     "level_note": "middleware functions are pure loggers; no claim about Context.Sender() during lifecycle messages",
@@ -159,7 +161,8 @@ PROPS["C15"] = {
             "only in the address/id split) and 4 registered message types, with unserialisable payloads (proto with invalid UTF-8, non-proto Go values) "
             "at generated positions; each batch goes through streamWriter.Invoke, the marshalled envelope through streamReader.Receive; the deliveries must "
             "equal the serialisable messages in order, each at its own target, proto.Equal payload of the same type, same sender (nil stays nil); nothing may "
-            "panic.  Non-trivial = one batch has >=2 targets, >=2 senders including none, and >=2 message types.  Distinct = canonical JSON.",
+            "panic.  Non-trivial = one batch has >=2 targets, >=2 senders including none, and >=2 message types.  Distinct = canonical JSON.  "
+            "Round 4 additions: one batch in four has 8..96 messages over up to 45 distinct targets and 49 distinct senders.",
     "technique": "round-trip property testing (rapid) of the real stream writer and reader over a marshalling fake stream",
     "level_text": "Generated-input search with a round-trip oracle over the real encoder and decoder; deterministic and single-threaded. Sampling, not proof.",
     "level_note": "trusts google.golang.org/protobuf (proto.Equal, Marshal) and the fake stream; batch formation by timing is replaced by generated batches",
@@ -200,8 +203,9 @@ PROPS["C09"] = {
             "local send made while it was subscribed, with the Target, Message and Sender of the send, one EngineRemoteMissingEvent per foreign send, nothing for nil, in send order; "
             "no send may panic; after the history the logs must stop growing within 10 sentinel rounds (dead letters addressed to a departed subscriber are allowed but must die out).  "
             "Non-trivial = at least one undeliverable send was observed by a subscribed monitor and the history has >=2 undeliverable target classes, or >=1 with a departed subscriber.  "
-            "Round 3 additions: sends through SendLocal, and Stop/Poison, of nil / never spawned / stopped targets (no panic, context done, one DeadLetterEvent carrying the stop request); a subscriber that leaves produces one ActorStoppedEvent at every remaining subscriber; a temp actor that sends to its own PID from inside its Stopped handler (one dead letter); a subscriber whose Stopped handler spawns and subscribes a successor under the same id (the successor receives everything from then on); a lost sentinel is decided by a later lifecycle event overtaking it (FIFO per broadcaster), not by a timeout.",
-    "technique": "model-based property testing (rapid) of generated send/subscribe histories on the real engine; sentinel barriers; finiteness by quiescence rounds",
+            "Round 3 additions: sends through SendLocal, and Stop/Poison, of nil / never spawned / stopped targets (no panic, context done, one DeadLetterEvent carrying the stop request); a subscriber that leaves produces one ActorStoppedEvent at every remaining subscriber; a temp actor that sends to its own PID from inside its Stopped handler (one dead letter); a subscriber whose Stopped handler spawns and subscribes a successor under the same id (the successor receives everything from then on); a lost sentinel is decided by a later lifecycle event overtaking it (FIFO per broadcaster), not by a timeout.  "
+            "Round 4 additions: nil message values; when a barrier sentinel does not arrive a witness subscriber decides whether the old subscriber lost its subscription (verdict) or is slow; schedule leg (props/sched, lock shim): 1..3 threads send to never-spawned / stopped / nil targets while another thread spawns and poisons actors, under generated uniform and priority schedules - no thread may end up blocked for good (deadlock = verdict), one DeadLetterEvent per send to the never-spawned PID with target, message and sender.",
+    "technique": "model-based property testing (rapid) of generated send/subscribe histories on the real engine; sentinel barriers; finiteness by quiescence rounds; generated uniform and priority schedules (vsched with a cooperative lock shim) for sends racing with registrations, deadlock = verdict",
     "level_text": "Generated-history search against an exact expectation of the dead-letter log of every monitor; the feedback loop with departed subscribers is decided by quiescence rounds, not by time.",
     "level_note": "single driver goroutine; 'never blocks' shows up only as an inconclusive timeout",
     "assumptions": EVENTS_ASSUME,
@@ -216,7 +220,8 @@ PROPS["C12"] = {
             "Each subscriber's log must equal the model's expectation: every event broadcast while it was subscribed exactly once, none otherwise, driver events in order, per-broadcaster "
             "order inside a burst, one started/restarted/duplicate/stopped/dead-letter event per provoked occurrence.  Non-trivial = the history unsubscribes a subscribed actor or "
             "subscribes an already subscribed actor through a distinct PID object, and broadcasts something.  "
-            "Round 3 additions: a Stop of an actor that is gone (one DeadLetterEvent with the stop request); a duplicate SpawnChild (one ActorDuplicateIdEvent); successor subscribers spawned from a Stopped handler under the same id; self-sends from Stopped.",
+            "Round 3 additions: a Stop of an actor that is gone (one DeadLetterEvent with the stop request); a duplicate SpawnChild (one ActorDuplicateIdEvent); successor subscribers spawned from a Stopped handler under the same id; self-sends from Stopped.  "
+            "Round 4 additions: a stop request queued behind the crashing message in one batch (the fresh incarnation handles Started, finds the request in the replayed tail and stops: restarted, started and stopped are each an occurrence); nil message values; the driver waits for the ActorStoppedEvent of an actor that died of max-restarts before it broadcasts anything else.",
     "technique": "model-based property testing (rapid) of subscribe/unsubscribe/broadcast histories on the real engine with logging subscriber actors and sentinel barriers",
     "level_text": "Generated-history search against an exact per-subscriber model; concurrent broadcasters are real goroutines (interleavings sampled, oracle only demands per-broadcaster order).",
     "level_note": "subscribe/unsubscribe are issued by the driver goroutine only (they are ordered with its broadcasts by the event stream inbox); ActorInitializedEvent is ignored",
@@ -235,7 +240,8 @@ PROPS["C18"] = {
             "with duplicate entries, self at a generated position) sent to the real agent of a cluster with a stub provider; after each snapshot Members() must equal the "
             "snapshot by ID, the MemberJoinEvent/MemberLeaveEvent log since the previous snapshot must be exactly the set difference (each once, none for stayers), and HasKind(k) "
             "must equal 'some member of the view advertises k' for 5 kinds.  Non-trivial = some snapshot both adds and removes members, or contains duplicate entries.  "
-            "Round 3 addition: a member ID reported from another host in a later snapshot is a member that stayed (no events).",
+            "Round 3 addition: a member ID reported from another host in a later snapshot is a member that stayed (no events).  "
+            "Round 4 additions: members with different ids reported behind one shared host.",
     "technique": "model-based property testing (rapid) of snapshot histories against a set model; Members() request as barrier, sentinel event for the event log",
     "level_text": "Generated-history search against an exact set model of the view, the event log and the kind index.",
     "level_note": "trusts the set model; member attributes are fixed per ID",
@@ -272,7 +278,8 @@ PROPS["C01"] = {
             "Schedule-owning legs (vsched, inbox level): 1..3 sender threads pushing 1..3 numbered messages each into a real Inbox of initial size 1..4 while Start races with them, under generated "
             "schedules and under every schedule with <= 2 (thorough 3) preemptions of 6 configurations: what Invoke receives contains nothing that was not pushed, nothing twice, and every sender's "
             "messages in its own order (the ring grows and wraps under interleaved pushes and batch pops).  "
-            "Round 3 additions: 1 case in 120 has a backlog of 4097..9000 messages (more than one batch); a duplicate Spawn under the target's id between the phases; a marker that is never handled is decided by relative progress (a bystander answers 300 requests issued after the marker while the idle target does not reach it), not by a timeout.",
+            "Round 3 additions: 1 case in 120 has a backlog of 4097..9000 messages (more than one batch); a duplicate Spawn under the target's id between the phases; a marker that is never handled is decided by relative progress (a bystander answers 300 requests issued after the marker while the idle target does not reach it), not by a timeout.  "
+            "Round 4 additions: between the phases a neighbour actor of the target's kind whose id relates to the target's (prefix, extension, path below it, unrelated) is spawned and stopped again: the target keeps receiving.",
     "technique": "property-based testing (rapid) of generated sender populations and inbox geometries on the real engine; per-sender sequence oracle; schedule-owning legs (generated + preemption-bounded schedules) at the inbox",
     "level_text": "Generated-input search; interleavings of the senders are sampled by the runtime in the engine leg and owned (generated / enumerated with a preemption bound) in the inbox legs; inbox geometry (size, backlog, wrap) is generated.",
     "level_note": "the ring buffer's own index arithmetic is covered exhaustively for short sequences by C14",
@@ -292,7 +299,8 @@ PROPS["C10"] = {
             "the Producer of every id has run exactly as often as the model says (never for a duplicate; once per burst on a free id), Registry.GetPID and Context.GetPID are non-nil exactly "
             "for live ids, the number of ActorDuplicateIdEvents per id equals the number of losing spawns, and the incumbent handles every queued message, in order, in the same incarnation.  "
             "Non-trivial = a burst of >=2 concurrent spawns on one free top-level id, or a spawn of an id whose previous actor was stopped.  "
-            "Round 3 additions: actors that die of max-restarts inside their own Spawn (panic in Initialized/Started, MaxRestarts 0): id free again, GetPID nil, respawn works; duplicates spawned while the incumbent is draining the messages queued behind a graceful Poison (it is still registered and keeps every queued message).",
+            "Round 3 additions: actors that die of max-restarts inside their own Spawn (panic in Initialized/Started, MaxRestarts 0): id free again, GetPID nil, respawn works; duplicates spawned while the incumbent is draining the messages queued behind a graceful Poison (it is still registered and keeps every queued message).  "
+            "Round 4 additions: the ids of the population relate to each other as prefixes and paths (1, 10, 1x, 1/0); a spawn over an actor that is being shut down and waits for a child with a blocking Stopped handler (still registered: duplicate event, producer not run).",
     "technique": "model-based property testing (rapid) of spawn/stop histories with concurrent spawn bursts on the real engine; counters in the Producer, sentinel-bounded event counts",
     "level_text": "Generated-history search against an exact model of live ids, producer calls and duplicate events; the spawn race is sampled with up to 12 goroutines per burst.",
     "level_note": "child spawns are serialised by their parent actor, so only top-level bursts race; Stop is always awaited before the next op",
@@ -308,7 +316,8 @@ PROPS["C11"] = {
             "if at least the timeout has elapsed since just before Result() was called; a silent responder must produce an error; after Result() the response PID is unregistered in both "
             "outcomes; a reply sent afterwards produces exactly one DeadLetterEvent for that response PID carrying that reply.  Non-trivial = >=2 concurrent requests with >=2 answered and "
             ">=1 timed-out request.  Cases in which two requests drew the same random response id are not judged (counted).  "
-            "Round 3 additions: 'held' requests (the reply arrives at once, Result() is called after more than the timeout: the reply must be returned); zero timeouts; the frequency of response-id collisions is judged (>= 3 colliding cases in one process against < 2.4e-7 per case for a 31-bit random id) - a statistical oracle.",
+            "Round 3 additions: 'held' requests (the reply arrives at once, Result() is called after more than the timeout: the reply must be returned); zero timeouts; the frequency of response-id collisions is judged (>= 3 colliding cases in one process against < 2.4e-7 per case for a 31-bit random id) - a statistical oracle.  "
+            "Round 4 additions: timeouts of one hour, of the largest Duration and of a few microseconds less; a first reply that the monitor sees as a DeadLetterEvent within 10 s of the request while the requester has not returned from Result() is a verdict (lost reply), not a timeout.",
     "technique": "property-based testing (rapid) of concurrent request populations with token correlation; monotonic-clock lower bound for the timeout; dead-letter probe for late replies",
     "level_text": "Generated-input search with a timing-robust oracle: only a lower bound on elapsed time and token identity are asserted.",
     "level_note": "cross-talk through a collision of the 31-bit random response id cannot be reached without owning math/rand and is not claimed",
@@ -326,7 +335,8 @@ PROPS["C08"] = {
             "live node equals the model's live children at every quiescent point, Parent() names the spawner.  Non-trivial = the stopped subtree has depth >= 2 and a blocked descendant, "
             "a subtree that stopped on its own first, a child that died in its own Started, a death by max-restarts, or a third-party stop overlapping the shutdown.  "
             "Every overlapping request's context must be done once the subtree is down, and at that moment its target has handled Stopped and is unregistered.  "
-            "Round 3 additions: nodes spawned WithContext(cancelled ctx); a duplicate SpawnChild under a live child's id (producer must not run, Children() unchanged); Stopped handlers that yield 0..200 times; for a target that is crashed to death the end of the shutdown is its ActorStoppedEvent.",
+            "Round 3 additions: nodes spawned WithContext(cancelled ctx); a duplicate SpawnChild under a live child's id (producer must not run, Children() unchanged); Stopped handlers that yield 0..200 times; for a target that is crashed to death the end of the shutdown is its ActorStoppedEvent.  "
+            "Round 4 additions: a descendant with MaxRestarts 0 is crashed to death before / while / after an ancestor is shut down (its clean-up overlaps the ancestor's): nobody may be left behind.",
     "technique": "property-based testing (rapid) of generated supervision trees and overlapping stop requests on the real engine; global stop stamps + in-handler registry probes",
     "level_text": "Generated-configuration search with an ordering invariant over the Stopped stamps of the whole tree.",
     "level_note": "the interleaving of overlapping stop requests with the clean-up of the tree is sampled by the Go runtime (real goroutines), not owned; findings F7, F17, F18 (fixed) were found and are guarded by this leg",
@@ -415,7 +425,8 @@ PROPS["C19"] = {
             "member the select function returned, and that PID is returned.  After every op, on every joined node, GetActiveByID of all 15 ids and GetActiveByKind of all 5 kinds must equal the "
             "model (a joiner learns everything, deactivate removes everywhere and stops the actor, a leaver's activations disappear), and the number of producer calls must equal the model's.  "
             "Non-trivial = the history has a remote activation and a leave or a deactivate.  "
-            "Round 3 additions: 'swap' (a departure and a join in one snapshot), 'lagjoin' (the joiner's own view still lists only itself while the others have sent it their topology: re-activating an id it resolves returns nil), 'slowjoin' (some members hear of a join only after one of them has activated an actor: the joiner must still learn it).",
+            "Round 3 additions: 'swap' (a departure and a join in one snapshot), 'lagjoin' (the joiner's own view still lists only itself while the others have sent it their topology: re-activating an id it resolves returns nil), 'slowjoin' (some members hear of a join only after one of them has activated an actor: the joiner must still learn it).  "
+            "Round 4 additions: one of the three ids of the population contains the kind/id separator (lobby/7).",
     "technique": "model-based property testing (rapid) of activation histories on an in-memory multi-node cluster against a map model; FIFO requests through the agents as barriers",
     "level_text": "Generated-history search against an exact model of the activation table on every node (quiescent histories).",
     "level_note": "notifications are pushed synchronously into the destination inbox, so arrival orders across links are not permuted; a node that left never rejoins",
